@@ -526,7 +526,15 @@ func C14StatisticsAndSubscribers() {
 		sym.Assume(x >= 0)
 		subMark, wMark := len(sub.sentMessages()), len(writer.sentMessages())
 		out := zzRoundTrip(from, zzFrame(net.Call, sid, 1, 6, uint32(20+i), append(append([]byte{}, name...), zzValueBytes(value.Int(x))...)))
-		sym.Assert(len(out) == 1 && out[0].Header.Type == net.Reply, "stats-subscribers/valid-write-refused")
+		replies := 0
+		for _, f := range out { // (the subscriber's own write also brings it the event)
+			if f.Header.Type == net.Reply {
+				replies++
+			} else {
+				sym.Assert(f.Header.Type == net.Event, "stats-subscribers/valid-write-refused")
+			}
+		}
+		sym.Assert(replies == 1, "stats-subscribers/write-not-answered-once")
 		events := 0
 		for _, f := range sub.sentMessages()[subMark:] {
 			if f.Header.Type == net.Event {
